@@ -4,6 +4,7 @@
 From Coq Require Import List NArith Bool.
 Import ListNotations.
 From OV Require Import Base.ErrClass Model.Latch Gen.Continuable Proofs.Latch.
+From OV Require Import Gen.LatchShape Model.LatchShape Proofs.LatchShape.
 
 Section C01.
   Variable S : Type.
@@ -61,6 +62,97 @@ Section C01.
   Theorem rawrecord_law : ing_raw_on_success S ing_step ->
     forall s ops, raws_ok None (snd (run (t_init, s) ops)).
   Proof. exact (rawrecord_law S ing_step ing_cont). Qed.
+
+  (* ---- tie to the source: Gen/LatchShape.v holds the statements of transform.Read and
+     transform.RawRecord as extracted from transform.go on this run ---- *)
+  Notation step := (step S ing_step ing_cont).
+  Notation src_step := (src_step S ing_step ing_cont).
+  Notation src_run := (src_run S ing_step ing_cont).
+  Notation runx := (runx S ing_step ing_cont).
+  Notation consulted := (consulted S ing_step).
+
+  (* In every state and for every ingester result, the interpretation of the extracted statements
+     returns (no panic, no fall-through) and is exactly the model's step. *)
+  Theorem latch_step_is_source_shape : forall st o, src_step st o = Some (step st o).
+  Proof. exact (step_is_source_shape S ing_step ing_cont). Qed.
+
+  Theorem latch_run_is_source_shape : forall ops st, src_run st ops = Some (run st ops).
+  Proof. exact (run_is_source_shape S ing_step ing_cont). Qed.
+
+  (* The contract over what the extracted statements compute. *)
+  Theorem src_trichotomy : forall st ops r,
+    src_run st ops = Some r ->
+    Forall (fun o => match o with
+                     | OutRaw _ => True
+                     | _ => is_record o \/ is_failure o \/ exists e, is_terminal o e
+                     end) (snd r).
+  Proof. exact (src_trichotomy S ing_step ing_cont). Qed.
+
+  Theorem src_terminal_sticky : forall st ops1 ops2 e st1 o1 st2 o,
+    src_run st ops1 = Some (st1, o1) ->
+    src_step st1 OpRead = Some (st2, o) -> is_terminal o e ->
+    src_run st (ops1 ++ OpRead :: ops2) = Some (st2, o1 ++ o :: map (sticky_out e) ops2).
+  Proof. exact (src_terminal_sticky S ing_step ing_cont). Qed.
+
+  Theorem src_rawrecord_law : ing_raw_on_success S ing_step ->
+    forall s ops r, src_run (t_init, s) ops = Some r -> raws_ok None (snd r).
+  Proof. exact (src_rawrecord_law S ing_step ing_cont). Qed.
+
+  (* ---- every history, each output paired with the ingester call made for it ([runx]) ---- *)
+  (* [consulted] is where the ingester moves: nothing consulted = ingester untouched. *)
+  Theorem consulted_spec : forall st o,
+    match consulted st o with
+    | None => snd (fst (step st o)) = snd st
+    | Some (s1, _) => snd (fst (step st o)) = s1
+    end.
+  Proof. exact (consulted_spec S ing_step ing_cont). Qed.
+
+  Theorem runx_is_run : forall ops st,
+    fst (runx st ops) = fst (run st ops) /\ map fst (snd (runx st ops)) = snd (run st ops).
+  Proof. exact (runx_run S ing_step ing_cont). Qed.
+
+  (* A Read returns non-nil bytes exactly when the ingester was called for it and reported success
+     with those bytes. *)
+  Theorem bytes_only_on_success : forall st ops,
+    Forall (fun p => forall b,
+              (exists e, fst p = OutRead (Some b) e) <->
+              (exists s1 raw, snd p = Some (s1, (raw, Some b, None))))
+           (snd (runx st ops)).
+  Proof. exact (bytes_only_on_success S ing_step ing_cont). Qed.
+
+  (* Every ErrTransformFailed result stems from an ingester error of that very call and carries
+     its message. *)
+  Theorem failed_wraps_ingester_error : forall st ops,
+    Forall (fun p => forall e, fst p = OutRead None (Some e) -> is_failed e = true ->
+              exists s1 raw b e0, snd p = Some (s1, (raw, b, Some e0)) /\ e_msg e = e_msg e0 /\
+                ((ing_cont s1 e0 = true /\ e = wrap_failed e0) \/
+                 (ing_cont s1 e0 = false /\ e = e0)))
+           (snd (runx st ops)).
+  Proof. exact (failed_wraps_ingester_error S ing_step ing_cont). Qed.
+
+  (* After the Read that returned a terminal error, no call of any later history reaches the
+     ingester. *)
+  Theorem ingester_not_called_after_terminal : forall st ops1 ops2 e,
+    let st1 := fst (run st ops1) in
+    is_terminal (snd (read st1)) e ->
+    map snd (snd (runx st (ops1 ++ OpRead :: ops2))) =
+      map snd (snd (runx st ops1)) ++ consulted st1 OpRead :: repeat None (length ops2).
+  Proof. exact (ingester_not_called_after_terminal S ing_step ing_cont). Qed.
+
+  (* The terminal error returned from then on is the very value the ingester returned. *)
+  Theorem error_identity : forall st ops1 ops2 s1 raw b e0,
+    let st1 := fst (run st ops1) in
+    consulted st1 OpRead = Some (s1, (raw, b, Some e0)) ->
+    ing_cont s1 e0 = false -> is_failed e0 = false ->
+    snd (run st (ops1 ++ OpRead :: ops2)) =
+      snd (run st ops1) ++ OutRead None (Some e0) :: map (sticky_out e0) ops2.
+  Proof. exact (error_identity S ing_step ing_cont). Qed.
+
+  (* RawRecord is determined by the most recent Read: its error, or the raw record of that very
+     ingester call, never an older one; no hypothesis on the ingester. *)
+  Theorem rawrecord_never_stale : forall s ops,
+    raws_fresh S None (snd (runx (t_init, s) ops)).
+  Proof. exact (rawrecord_never_stale S ing_step ing_cont). Qed.
 End C01.
 
 (* The built-in ingester satisfies the hypothesis of rawrecord_law, for every FormatReader. *)
@@ -108,3 +200,31 @@ Example c01_nonvacuous :
      OutRead None (Some eof); OutRead None (Some eof); OutRaw (RRErr eof);
      OutRead None (Some eof); OutRead None (Some eof); OutRaw (RRErr eof)] 3) = true.
 Proof. vm_compute. reflexivity. Qed.
+
+(* Non-vacuity of the history theorems, on a scripted ingester: success, a continuable error
+   delivered together with bytes and a raw record (both must be dropped), an ErrTransformFailed the
+   ingester calls non-continuable (still not terminal), a fatal pointer error, then calls after it.
+   The extracted statements give the same run; the premises of error_identity and
+   ingester_not_called_after_terminal are met at the fourth Read; the ingester is called 4 times. *)
+Example c01_histories_nonvacuous :
+  let fatal := mkErr COther 9 4 6 in
+  let fl := mkErr CFailed 0 1 7 in
+  let script := [mkIng (Some 1%N) (Some 10%N) None false;
+                 mkIng (Some 2%N) (Some 11%N) (Some (mkErr COther 0 3 5)) true;
+                 mkIng None None (Some fl) false;
+                 mkIng (Some 3%N) (Some 12%N) (Some fatal) false] in
+  let st0 := (t_init, mkS script false 0 false) in
+  let ops1 := [OpRead; OpRaw; OpRead; OpRaw; OpRead; OpRaw] in
+  let ops2 := [OpRaw; OpRead; OpRead; OpRaw] in
+  let st1 := fst (run sing sing_step sing_cont st0 ops1) in
+  src_run sing sing_step sing_cont st0 (ops1 ++ OpRead :: ops2)
+    = Some (run sing sing_step sing_cont st0 (ops1 ++ OpRead :: ops2))
+  /\ snd (run sing sing_step sing_cont st0 ops1) =
+       [OutRead (Some 10%N) None; OutRaw (RROk 1%N);
+        OutRead None (Some (mkErr CFailed 0 1 5)); OutRaw (RRErr (mkErr CFailed 0 1 5));
+        OutRead None (Some fl); OutRaw (RRErr fl)]
+  /\ (exists s1, consulted sing sing_step st1 OpRead = Some (s1, (Some 3%N, Some 12%N, Some fatal))
+                 /\ sing_cont s1 fatal = false)
+  /\ is_terminal (snd (read sing sing_step sing_cont st1)) fatal
+  /\ s_calls (snd (fst (run sing sing_step sing_cont st0 (ops1 ++ OpRead :: ops2)))) = 4%N.
+Proof. vm_compute. repeat split; try reflexivity. eexists; split; reflexivity. Qed.
